@@ -2,8 +2,11 @@ package main
 
 import (
 	"fmt"
+	"runtime"
 	"strings"
 	"time"
+
+	"github.com/fufuok/cache/internal/vshim/sched"
 )
 
 // E2: explicit-state search over call/event sequences applied to the real
@@ -35,10 +38,31 @@ type SeqSpec struct {
 	janitor   bool // instances own a real janitor goroutine (construction waits for it to register its ticker)
 }
 
+// applySafe: a panic of the code under test in sequential use is a verdict (no call may panic on any
+// input the API accepts), not a crash of the search.
+func applySafe(inst SeqInst, ev int, check bool) (sig, d string) {
+	defer func() {
+		if r := recover(); r != nil {
+			msg := fmt.Sprint(r)
+			if strings.HasPrefix(msg, "INFRASTRUCTURE:") || sched.Active() {
+				panic(r)
+			}
+			first := msg
+			if i := strings.IndexByte(first, '\n'); i >= 0 {
+				first = first[:i]
+			}
+			buf := make([]byte, 2048)
+			buf = buf[:runtime.Stack(buf, false)]
+			sig, d = "the call panics: "+first, msg+"\n"+string(buf)
+		}
+	}()
+	return inst.Apply(ev, check)
+}
+
 func (sp *SeqSpec) replay(hist []int, check bool) (SeqInst, string, string) {
 	inst := sp.New()
 	for _, ev := range hist {
-		if sig, d := inst.Apply(ev, check); sig != "" {
+		if sig, d := applySafe(inst, ev, check); sig != "" {
 			return inst, sig, d
 		}
 	}
@@ -76,7 +100,7 @@ func ExploreSeq(sp *SeqSpec, deadline time.Time) *ExploreStats {
 					st.WallMs = time.Since(t0).Milliseconds()
 					return st
 				}
-				sig, d = inst.Apply(ev, true)
+				sig, d = applySafe(inst, ev, true)
 				st.Transitions++
 				st.Executions++
 				k := ""
